@@ -661,6 +661,15 @@ func TestAggregates(t *testing.T) {
 	check("SELECT anyIf(k, v > 5) FROM t", "b")
 	check("SELECT maxIf(v, k = 'a') FROM t", i(3))
 	check("SELECT minIf(v, k = 'zz') FROM t", i(0)) // no rows: default
+	// Nullable argument and no admitted row: the result is NULL (Null adapter),
+	// e.g. qryn's sumIf(agg_val, isNotNull(agg_val)) over only-NULL values
+	check("SELECT sumIf(n, isNotNull(n)) FROM t WHERE k = 'b'", nil)
+	check("SELECT avgIf(n, isNotNull(n)) FROM t WHERE k = 'b'", nil)
+	check("SELECT minIf(n, isNotNull(n)) FROM t WHERE k = 'b'", nil)
+	check("SELECT maxIf(n, isNotNull(n)) FROM t WHERE k = 'b'", nil)
+	check("SELECT countIf(n, isNotNull(n)) FROM t WHERE k = 'b'", u(0)) // count is never NULL
+	check("SELECT sumIf(n, isNotNull(n)) FROM t", 4.0)
+	check("SELECT sumIf(a2, isNotNull(a2)) != 5 FROM (SELECT anyIf(toFloat64OrNull(k), v > 0) AS a2 FROM t GROUP BY k) WHERE 1", nil)
 	// quantile: sorted values 1,2,4,8; level 0.5 -> index 1.5 -> 2*0.5 + 4*0.5 = 3
 	check("SELECT quantile(0.5)(f) FROM t", 3.0)
 	check("SELECT quantile(f) FROM t", 3.0)
